@@ -276,6 +276,43 @@ func rulePassOrder(c *core.Ctx) {
 			}
 		}
 	}
+	// alias chains are followed only once they are known to be finite: GetUnderlyingType (and what is built on it)
+	// recurses through NamedType.Type without a visited set, so on a model with an alias cycle (`A: B`, `B: A`) it
+	// never returns. The pass that reports reference cycles is topologicalSortTypes; a pass that reaches
+	// GetUnderlyingType must run after it AND return at once when errors were recorded.
+	if gut, _, _ := c.Func("pkg/dsl", "GetUnderlyingType"); gut != nil {
+		if ti, ok := index["topologicalSortTypes"]; !ok {
+			c.Undecided(rule, "acyclic/producer topologicalSortTypes", litPos, "topologicalSortTypes is not in the pass list")
+		} else {
+			for _, f := range passes {
+				if f.Name() == "topologicalSortTypes" {
+					continue
+				}
+				path := c.PathTo(f, func(g *types.Func) bool { return g == gut }, func(g *types.Func) bool { return !core.InModule(g) })
+				if path == nil {
+					continue
+				}
+				d := c.Decl(f)
+				guarded := false
+				if d != nil && len(d.Body.List) > 0 {
+					if is, ok := d.Body.List[0].(*ast.IfStmt); ok && strings.Contains(types.ExprString(is.Cond), "len(") && strings.Contains(types.ExprString(is.Cond), ".Errors)") && len(is.Body.List) == 1 {
+						if _, isRet := is.Body.List[0].(*ast.ReturnStmt); isRet {
+							guarded = true
+						}
+					}
+				}
+				key := "acyclic/" + f.Name()
+				switch {
+				case index[f.Name()] < ti:
+					c.Bad(rule, key, f.Pos(), fmt.Sprintf("pass %s (#%d) follows alias chains (%s) before topologicalSortTypes (#%d) has reported reference cycles: on `A: B`, `B: A` used in the position this pass looks at, GetUnderlyingType recurses until the stack overflows", f.Name(), index[f.Name()], core.PathStr(path), ti))
+				case !guarded:
+					c.Bad(rule, key, f.Pos(), fmt.Sprintf("pass %s (#%d) follows alias chains (%s) and does not start with `if len(errorSink.Errors) > 0 { return env }`: after topologicalSortTypes has REPORTED an alias cycle the pass still runs and GetUnderlyingType recurses until the stack overflows", f.Name(), index[f.Name()], core.PathStr(path)))
+				default:
+					c.OK(rule, key, f.Pos(), fmt.Sprintf("runs after cycle detection (#%d > #%d) and returns at once when errors were recorded", index[f.Name()], ti))
+				}
+			}
+		}
+	}
 	// evidence: which produced fields each pass touches
 	tbl := map[string][]string{}
 	for _, f := range passes {
